@@ -121,8 +121,8 @@ def tlc(module, cfg, workers=16, simulate=None, depth=None, tlc_seed=None, timeo
     unexpected outcome (a violated invariant is unexpected unless expect_violation).
     """
     result = TlcResult()
-    wd = workdir(tag or ("tlc-" + module))
-    module_path = os.path.join(SPEC, module + ".tla")
+    wd = workdir(tag or ("tlc-" + os.path.basename(module)))
+    module_path = module if os.path.isabs(module) else os.path.join(SPEC, module + ".tla")
     cfg_path = os.path.join(SPEC, cfg) if not os.path.isabs(cfg) else cfg
     java = ["java", "-XX:+UseParallelGC", "-Xmx24g", "-DTLA-Library=" + SPEC]
     if dfs:
@@ -148,7 +148,7 @@ def tlc(module, cfg, workers=16, simulate=None, depth=None, tlc_seed=None, timeo
     result.cmd = " ".join(cmd)
     started = time.time()
     try:
-        process = subprocess.run(cmd, cwd=SPEC, env=full_env, stdout=subprocess.PIPE, stderr=subprocess.STDOUT,
+        process = subprocess.run(cmd, cwd=os.path.dirname(module_path), env=full_env, stdout=subprocess.PIPE, stderr=subprocess.STDOUT,
                                  timeout=timeout, universal_newlines=True, errors="replace")
         output = process.stdout
         returncode = process.returncode
@@ -201,7 +201,8 @@ def tlc(module, cfg, workers=16, simulate=None, depth=None, tlc_seed=None, timeo
         simulate is not None and result.error is None and returncode == 0)
     result.ok = finished and result.error is None
     if not result.ok and not (expect_violation and result.violated):
-        tail = "\n".join(other_lines[-40:])
+        first = next((i for i, text in enumerate(other_lines) if text.startswith("Error:")), max(0, len(other_lines) - 30))
+        tail = "\n".join(other_lines[first:first + 90])
         raise MachineryError("TLC did not finish cleanly on %s/%s (rc=%s): %s\n%s" % (
             module, cfg, returncode, result.error, tail))
     return result
